@@ -5,6 +5,7 @@ cd /repo && git diff --quiet || { echo "repo dirty: refusing"; exit 9; }
 cd /verif
 # the shape baseline of the new-construct / displaced-aid rules is a function of the clean tree and the unit templates: keep it in step
 tools/baseline_shapes.py > /dev/null || { echo 'baseline_shapes failed'; exit 9; }
+tools/context_pins.py > /dev/null || { echo 'context_pins failed'; exit 9; }
 bad=0
 for id in $(python3 -c "import json;print(' '.join(c['property_id'] for c in json.load(open('MANIFEST.json'))['checks']))"); do
   out=$(./check $id --tier quick 2>&1 | tail -1); rc=$?
